@@ -3,6 +3,7 @@ import VlsModel.Model.Bolt3
 Helper lemmas for property C04 (structured BOLT-3 model).
 -/
 set_option linter.unusedSectionVars false
+set_option linter.unusedSimpArgs false
 namespace VlsModel.Bolt3
 open List
 
@@ -364,6 +365,83 @@ theorem canon_congr (hw : Function.Injective wsh) (hk : Function.Injective okey)
   unfold canon canonWs canonLocktime canonSequence obscured
   rw [buildPanics_congr c c' hn ho hr, canonElems_congr wsh okey hw hk s k c c' hcs hbc ho hr, hn]
   exact ⟨rfl, rfl⟩
+
+/-! ## HTLC transactions of the canonical commitment -/
+
+theorem rawElems_htlc (s : Setup) (k : Keys) (c : Content) (e : Elem H) (he : e ∈ rawElems wsh s k c)
+    (off : Bool) (h : Htlc) (hh : e.htlc = some (off, h)) :
+    e = htlcElem wsh s k off h ∧ h ∈ (if off then c.offered else c.received) := by
+  simp only [rawElems, mem_append, mem_map] at he
+  rcases he with ((he | he) | he) | (⟨h', hm, rfl⟩ | ⟨h', hm, rfl⟩)
+  · split at he
+    · simp only [mem_singleton] at he; subst he
+      simp only [toRemoteElem] at hh; split at hh <;> cases hh
+    · cases he
+  · split at he
+    · simp only [mem_singleton] at he; subst he; cases hh
+    · cases he
+  · split at he
+    · simp only [mem_append] at he
+      rcases he with he | he <;> split at he <;>
+        first
+        | (simp only [mem_singleton] at he; subst he; cases hh)
+        | cases he
+    · cases he
+  · simp only [htlcElem, Option.some.injEq, Prod.mk.injEq] at hh
+    obtain ⟨rfl, rfl⟩ := hh
+    exact ⟨rfl, by simpa using hm⟩
+  · simp only [htlcElem, Option.some.injEq, Prod.mk.injEq] at hh
+    obtain ⟨rfl, rfl⟩ := hh
+    exact ⟨rfl, by simpa using hm⟩
+
+theorem htlcTxsAux_length (s : Setup) (k : Keys) (c : Content) (parent : CTx H) (l : List (Elem H)) (i : Nat) :
+    (htlcTxsAux s k c parent l i).length = l.countP (fun e => e.htlc.isSome) := by
+  induction l generalizing i with
+  | nil => simp [htlcTxsAux]
+  | cons e l ih =>
+    cases he : e.htlc with
+    | none => simp [htlcTxsAux, he, ih, countP_cons]
+    | some p => obtain ⟨off, h⟩ := p; simp [htlcTxsAux, he, ih, countP_cons]
+
+theorem rawElems_countP (s : Setup) (k : Keys) (c : Content) :
+    (rawElems wsh s k c).countP (fun e => e.htlc.isSome) = c.offered.length + c.received.length := by
+  have h1 : ∀ (off : Bool) (l : List Htlc),
+      (l.map (htlcElem wsh s k off)).countP (fun e => e.htlc.isSome) = l.length := by
+    intro off l; induction l <;> simp_all [htlcElem, countP_cons]
+  simp only [rawElems, countP_append, h1]
+  have z1 : ∀ v, (if c.toCs > 0 then [toRemoteElem wsh s k v] else []).countP (fun e => e.htlc.isSome) = 0 := by
+    intro v; split <;> simp [toRemoteElem, countP_cons]; split <;> simp
+  have z2 : ∀ v, (if c.toBc > 0 then [toLocalElem wsh s k v] else []).countP (fun e => e.htlc.isSome) = 0 := by
+    intro v; split <;> simp [toLocalElem, countP_cons]
+  have z3 : ∀ (p : Prop) [Decidable p] (key : Key),
+      (if p then [anchorElem wsh key] else ([] : List (Elem H))).countP (fun e => e.htlc.isSome) = 0 := by
+    intro p _ key; split <;> simp [anchorElem, countP_cons]
+  rw [z1, z2]
+  split
+  · rw [countP_append, z3, z3]; omega
+  · simp
+
+theorem htlcTxsAux_spec (s : Setup) (k : Keys) (c : Content) (parent : CTx H) (l : List (Elem H)) (i : Nat)
+    (t : HtlcTx H) (ht : t ∈ htlcTxsAux s k c parent l i) :
+    ∃ j e off h, l[j]? = some e ∧ e.htlc = some (off, h) ∧ t.vout = i + j ∧ t.parent = parent ∧
+      t.redeem = htlcScript s k off h ∧ t.amount = h.value ∧ t.locktime = (if off then h.cltv else 0) ∧
+      t.value = htlcTxValue s c.feerate off h ∧ t.outScript = toLocalScript s k ∧
+      t.sequence = (if s.ctype.ldkAnchors then 1 else 0) ∧ t.singleAcp = s.ctype.ldkAnchors := by
+  induction l generalizing i with
+  | nil => simp [htlcTxsAux] at ht
+  | cons e l ih =>
+    cases he : e.htlc with
+    | none =>
+      simp only [htlcTxsAux, he] at ht
+      obtain ⟨j, e', off, h, h1, h2, h3, rest⟩ := ih (i + 1) ht
+      exact ⟨j + 1, e', off, h, by simpa using h1, h2, by omega, rest⟩
+    | some p =>
+      obtain ⟨off, h⟩ := p
+      simp only [htlcTxsAux, he, mem_cons] at ht
+      rcases ht with rfl | ht
+      · exact ⟨0, e, off, h, by simp, he, by simp, rfl, rfl, rfl, rfl, rfl, rfl, rfl, rfl⟩
+      · obtain ⟨j, e', off', h', h1, h2, h3, rest⟩ := ih (i + 1) ht
+        exact ⟨j + 1, e', off', h', by simpa using h1, h2, by omega, rest⟩
 
 end
 
